@@ -252,6 +252,13 @@ func (ds *dataSet) TruncateGap() (*dataSetRdb, []*dataSetAof) {
 		}
 	}
 
+	// the log must start right at the snapshot's offset; a snapshot whose first segments
+	// are missing is older than a gap too
+	if ds.rdb != nil && len(ds.aofSegs) > 0 && ds.aofSegs[0].Left() != ds.rdb.Left() {
+		rdb = ds.rdb
+		ds.rdb = nil
+	}
+
 	ds.aofMap = make(map[int64]*dataSetAof)
 	for _, a := range ds.aofSegs {
 		ds.aofMap[a.left] = a
